@@ -359,9 +359,41 @@ fn subscribe_replay() {
 //   init
 //   insert <sess> <p> <rid> <cls> <nh> <filt 0|1> | remove <sess> <p> <rid> | drop|markstale|dropstale|markllgr|dropllgr <sess...>
 //   nhflip <nh> <up 0|1>
-// Output: per op {"fib":{p:[nh..]},"reg":{nh:n},"neg":bool}
+//   vrf <name> <table id> <rd> <imported rt numbers: a,b>      (configured at every init, before any route exists)
+//   a prefix written vpn:<asn>:<n>:<cidr> is a VPNv4 / VPNv6 prefix; a class line may end with the route-target numbers it carries
+// Output: per op {"fib":{p:[nh..]},"vfib":{vrf:{p:[nh..]}},"reg":{nh:n},"neg":bool}; vfib = the VRF table's entry for the VPN prefix's
+// inner prefix
 
 const FIB_REJ: u32 = (65000 << 16) | 777;
+
+fn fib_rt(n: u32) -> [u8; 8] {
+    let mut b = [0u8, 2, 0xfd, 0xe8, 0, 0, 0, 0];
+    b[4..8].copy_from_slice(&n.to_be_bytes());
+    b
+}
+
+fn fib_nlri(s: &str) -> packet::Nlri {
+    let Some(rest) = s.strip_prefix("vpn:") else {
+        return s.parse().unwrap();
+    };
+    let mut it = rest.splitn(3, ':');
+    let rd: packet::rd::RouteDistinguisher = format!("{}:{}", it.next().unwrap(), it.next().unwrap()).parse().unwrap();
+    let labels = packet::mpls::MplsLabelStack::new(vec![packet::mpls::MplsLabel::new(100)]);
+    match it.next().unwrap().parse::<packet::IpNet>().unwrap() {
+        packet::IpNet::V4(prefix) => packet::Nlri::VpnV4(packet::vpn::VpnV4Nlri { labels, rd, prefix }),
+        packet::IpNet::V6(prefix) => packet::Nlri::VpnV6(packet::vpn::VpnV6Nlri { labels, rd, prefix }),
+    }
+}
+
+fn fib_family(n: &packet::Nlri) -> Family {
+    match n {
+        packet::Nlri::V4(_) => Family::IPV4,
+        packet::Nlri::V6(_) => Family::IPV6,
+        packet::Nlri::VpnV4(_) => Family::IPV4_VPN,
+        packet::Nlri::VpnV6(_) => Family::IPV6_VPN,
+        _ => panic!("harness: family of {n}"),
+    }
+}
 
 fn fib_attrs(t: &[&str], filt: bool) -> Arc<Vec<packet::Attribute>> {
     let (lp, origin, clen, oid): (u32, u32, u32, u32) = (t[2].parse().unwrap(), t[3].parse().unwrap(), t[4].parse().unwrap(), t[5].parse().unwrap());
@@ -399,6 +431,15 @@ fn fib_attrs(t: &[&str], filt: bool) -> Arc<Vec<packet::Attribute>> {
         }
         v.push(packet::Attribute::new_with_bin(packet::Attribute::CLUSTER_LIST, b).unwrap());
     }
+    if let Some(rts) = t.get(8).filter(|x| **x != "-") {
+        let mut b = Vec::new();
+        // a non-target extended community first (site of origin), then the route targets
+        b.extend_from_slice(&[0u8, 3, 0xfd, 0xe8, 0, 0, 0, 1]);
+        for r in rts.split(',') {
+            b.extend_from_slice(&fib_rt(r.parse().unwrap()));
+        }
+        v.push(packet::Attribute::new_with_bin(packet::Attribute::EXTENDED_COMMUNITY, b).unwrap());
+    }
     Arc::new(v)
 }
 
@@ -413,7 +454,7 @@ fn fib_replay() {
     let outp = std::env::var("VERIF_OUT").expect("VERIF_OUT");
     let text = std::fs::read_to_string(&inp).expect("read VERIF_IN");
     let mut out = std::io::BufWriter::new(std::fs::File::create(&outp).expect("create VERIF_OUT"));
-    let mut sess_cfg: Vec<(String, IpAddr, bool, u32)> = Vec::new();
+    let mut sess_cfg: Vec<(String, IpAddr, bool, u32, String)> = Vec::new();
     let mut prefixes: Vec<(String, packet::Nlri)> = Vec::new();
     let mut nhs: Vec<(String, IpAddr)> = Vec::new();
     let mut classes: HashMap<(String, bool), Arc<Vec<packet::Attribute>>> = HashMap::new();
@@ -421,6 +462,8 @@ fn fib_replay() {
     let mut rx: Option<kernel::verif::VerifReceiver> = None;
     let mut sources: HashMap<String, Arc<table::Source>> = HashMap::new();
     let mut fib: HashMap<String, Vec<String>> = HashMap::new();
+    let mut vfib: HashMap<(u32, String), Vec<String>> = HashMap::new();
+    let mut vrfs: Vec<(String, u32, String, Vec<u32>)> = Vec::new();
     let mut reg: HashMap<String, i64> = HashMap::new();
     for line in text.lines() {
         let t: Vec<&str> = line.split_whitespace().collect();
@@ -430,15 +473,19 @@ fn fib_replay() {
         let peer_addr = |name: &str| sess_cfg.iter().find(|s| s.0 == name).unwrap().1;
         match t[0] {
             "sess" => {
-                sess_cfg.push((t[1].to_string(), t[2].parse().unwrap(), t[3] == "1", t[4].parse().unwrap()));
+                sess_cfg.push((t[1].to_string(), t[2].parse().unwrap(), t[3] == "1", t[4].parse().unwrap(), t.get(5).unwrap_or(&"").to_string()));
                 continue;
             }
             "prefix" => {
-                prefixes.push((t[1].to_string(), t[2].parse().unwrap()));
+                prefixes.push((t[1].to_string(), fib_nlri(t[2])));
                 continue;
             }
             "nh" => {
                 nhs.push((t[1].to_string(), t[2].parse().unwrap()));
+                continue;
+            }
+            "vrf" => {
+                vrfs.push((t[1].to_string(), t[2].parse().unwrap(), t[3].to_string(), t[4].split(',').map(|x| x.parse().unwrap()).collect()));
                 continue;
             }
             "cls" => {
@@ -457,23 +504,40 @@ fn fib_replay() {
                 let (h, r) = kernel::verif::handle();
                 tm.kernel_handle.store(Some(Arc::new(h)));
                 rx = Some(r);
+                for (name, id, rd, imp) in &vrfs {
+                    tm.add_vrf(name.clone(), rd.parse().unwrap(), imp.iter().map(|n| fib_rt(*n)).collect(), vec![], *id).unwrap();
+                }
                 sources.clear();
-                for (name, addr, ebgp, rtr) in &sess_cfg {
-                    let (role, rasn) = if *ebgp { (table::PeerRole::Ebgp, 65001) } else { (table::PeerRole::Ibgp, 65000) };
+                for (name, addr, ebgp, rtr, role) in &sess_cfg {
+                    let (role, rasn) = match role.as_str() {
+                        "RsClient" => (table::PeerRole::RsClient, 65003),
+                        "IbgpRrClient" => (table::PeerRole::IbgpRrClient, 65000),
+                        "ConfedEbgp" => (table::PeerRole::ConfedEbgp, 65002),
+                        _ if *ebgp => (table::PeerRole::Ebgp, 65001),
+                        _ => (table::PeerRole::Ibgp, 65000),
+                    };
                     sources.insert(name.clone(), Arc::new(table::Source::new(*addr, IpAddr::V4(Ipv4Addr::new(10, 0, 0, 254)), rasn, 65000, Ipv4Addr::from(*rtr), role)));
                 }
                 fib.clear();
+                vfib.clear();
                 reg.clear();
                 writeln!(out, "{{\"init\":true}}").unwrap();
                 continue;
             }
             _ => {}
         }
-        let fam = Family::IPV4;
+        let mut fams: Vec<Family> = Vec::new();
+        for p in &prefixes {
+            if !fams.contains(&fib_family(&p.1)) {
+                fams.push(fib_family(&p.1));
+            }
+        }
+        let fams = &fams[..];
         match t[0] {
             "insert" => {
                 let src = sources[t[1]].clone();
                 let net = packet::PathNlri { path_id: t[3].parse().unwrap(), nlri: prefixes.iter().find(|p| p.0 == t[2]).unwrap().1.clone() };
+                let fam = fib_family(&net.nlri);
                 let nh = nhs.iter().find(|n| n.0 == t[5]).unwrap().1;
                 let nh = match nh {
                     IpAddr::V4(a) => bgp::Nexthop::V4(a),
@@ -485,13 +549,14 @@ fn fib_replay() {
             "remove" => {
                 let src = sources[t[1]].clone();
                 let net = packet::PathNlri { path_id: t[3].parse().unwrap(), nlri: prefixes.iter().find(|p| p.0 == t[2]).unwrap().1.clone() };
+                let fam = fib_family(&net.nlri);
                 tm.remove_route(src, fam, net, None, 0);
             }
-            "drop" => tm.unregister_peer(peer_addr(t[1]), &[fam], &[]),
-            "markstale" => tm.unregister_peer(peer_addr(t[1]), &[], &[fam]),
-            "dropstale" => tm.drop_stale_families(peer_addr(t[1]), &[fam]),
-            "markllgr" => tm.mark_llgr_stale(peer_addr(t[1]), &[fam]),
-            "dropllgr" => tm.drop_llgr_stale_families(peer_addr(t[1]), &[fam]),
+            "drop" => tm.unregister_peer(peer_addr(t[1]), fams, &[]),
+            "markstale" => tm.unregister_peer(peer_addr(t[1]), &[], fams),
+            "dropstale" => tm.drop_stale_families(peer_addr(t[1]), fams),
+            "markllgr" => tm.mark_llgr_stale(peer_addr(t[1]), fams),
+            "dropllgr" => tm.drop_llgr_stale_families(peer_addr(t[1]), fams),
             "nhflip" => {
                 let nh = nhs.iter().find(|n| n.0 == t[1]).unwrap().1;
                 tm.update_nexthop_validity(nh, t[2] == "1");
@@ -522,11 +587,20 @@ fn fib_replay() {
         while let Some(r) = rx.as_mut().unwrap().try_recv() {
             match r {
                 kernel::verif::VerifRequest::Apply(c) => {
-                    let p = prefixes.iter().find(|p| p.1 == c.net).map(|p| p.0.clone()).unwrap_or_else(|| "?".into());
                     let mut v: Vec<String> = c.nexthops.iter().map(|n| nhs.iter().find(|x| x.1 == n.addr()).map(|x| x.0.clone()).unwrap_or_else(|| "?".into())).collect();
                     v.sort();
                     v.dedup();
-                    fib.insert(p, v);
+                    match c.table_id {
+                        None => {
+                            let p = prefixes.iter().find(|p| p.1 == c.net).map(|p| p.0.clone()).unwrap_or_else(|| "?".into());
+                            fib.insert(p, v);
+                        }
+                        Some(id) => {
+                            // a VRF table holds the VPN prefix's inner prefix
+                            let p = prefixes.iter().find(|p| table::vpn_to_local_nlri(&p.1).as_ref() == Some(&c.net)).map(|p| p.0.clone()).unwrap_or_else(|| "?".into());
+                            vfib.insert((id, p), v);
+                        }
+                    }
                 }
                 kernel::verif::VerifRequest::RegisterNexthop(a) => {
                     *reg.entry(nhs.iter().find(|x| x.1 == a).map(|x| x.0.clone()).unwrap_or_else(|| "?".into())).or_insert(0) += 1;
@@ -548,6 +622,29 @@ fn fib_replay() {
             }
             let v = fib.get(p).cloned().unwrap_or_default();
             s.push_str(&format!("\"{}\":[{}]", p, v.iter().map(|x| format!("\"{}\"", x)).collect::<Vec<_>>().join(",")));
+        }
+        s.push_str("},\"vfib\":{");
+        for (i, (name, id, _, _)) in vrfs.iter().enumerate() {
+            if i > 0 {
+                s.push(',');
+            }
+            s.push_str(&format!("\"{}\":{{", name));
+            let mut first = true;
+            for (p, n) in prefixes.iter() {
+                if table::vpn_to_local_nlri(n).is_none() {
+                    continue;
+                }
+                if !first {
+                    s.push(',');
+                }
+                first = false;
+                let v = vfib.get(&(*id, p.clone())).cloned().unwrap_or_default();
+                s.push_str(&format!("\"{}\":[{}]", p, v.iter().map(|x| format!("\"{}\"", x)).collect::<Vec<_>>().join(",")));
+            }
+            s.push('}');
+        }
+        if vfib.keys().any(|(id, p)| p == "?" || !vrfs.iter().any(|v| v.1 == *id)) {
+            s.push_str(&format!("{}\"?\":{{}}", if vrfs.is_empty() { "" } else { "," }));
         }
         s.push_str("},\"reg\":{");
         for (i, (n, _)) in nhs.iter().enumerate() {
